@@ -1,6 +1,7 @@
 import CgtModel.Report
 import CgtModel.Props.C02
 import CgtModel.Lemmas.SpecPerm
+import CgtModel.Lemmas.SpecTable
 /-! # C06 — the report does not depend on line order, file split or fill splitting
 
 Full statement: permuting the input lines, distributing them over files, or recording one trade as
